@@ -1,2 +1,7 @@
--- stub: replaced by the model driver of this property
-def main : IO Unit := pure ()
+import SdcModel.Basic.Io
+import SdcModel.Consumer
+import SdcModel.Drivers.ConsumerIo
+open Sdc Sdc.Mdib Sdc.Consumer
+
+/-- model driver of C06 (and C01): see `SdcModel/Drivers/ConsumerIo.lean` for the line protocol -/
+def main : IO Unit := Io.lineLoop ConsumerIo.stepLine St.init
